@@ -24,7 +24,7 @@ HARNESSES = {
     'h_lu': dict(src='h_lu.cpp', insts=[]),
 }
 
-_c10_base = two_flavour('h_lu', 1000, 3000, 3000, 15000)
+_c10_base = two_flavour('h_lu', 700, 2500, 3000, 15000)
 _c11_base = two_flavour('h_lu', 2500, 9000, 40000, 160000)
 
 
@@ -54,7 +54,7 @@ _C10_VARIANTS = ['solveRight.dense', 'solveRight.ssvec', 'solveRight.svec', 'sol
 def _c10_minima(tier):
     th = tier == 'thorough'
     m = {'c10.updates_applied.FT': 200000 if th else 15000, 'c10.updates_applied.ETA': 200000 if th else 15000,
-         'c10.load.singular_checked.alarm_domain': 1500 if th else 300, 'c10.load.wellcond_ok': 8000 if th else 1500,
+         'c10.load.singular_checked.alarm_domain': 1500 if th else 250, 'c10.load.wellcond_ok': 8000 if th else 1500,
          'c10.sparse_result.setup_checked': 500000 if th else 100000, 'c10.forward_checked': 500000 if th else 100000,
          'c10.index_guard.checked': 1000000 if th else 300000,
          'c10.refactorizations': 2000 if th else 300, 'distinct:nontrivial': 1500 if th else 600}
@@ -92,11 +92,16 @@ PROPS = {
                    'the current matrix (kept with its exact inverse and condition number), multi-rhs results against the single solves, '
                    'load status against exact (non)singularity. Sampling of an infinite space of matrices and histories: '
                    'held-on-what-was-observed, not a proof.',
-        level_note='trusts GMP arithmetic and the exact inverse (self-tested at start-up). Rounding level = 1e-9 relative to ||B||*||x||+||b|| '
-                   'plus the documented absolute zero tolerance epsilon=1e-16 with which the solves drop entries; "never reported singular" is '
-                   'decided for cond_inf<=1e8 and ||B^-1||_inf<=1e5 (away from the documented absolute pivot tolerance epsilon_pivot=1e-10); '
-                   '"singular is reported" is decided for exactly singular small-integer matrices (zero/duplicate/parallel/dependent rows or '
-                   'columns). Update histories refactorise where SPxBasisBase::change() would (status != OK, stability < minStab).',
+        level_note='trusts GMP arithmetic and the exact inverse (self-tested at start-up). Rounding level = max(1e-9, 2e-12/stability()) relative to '
+                   '||B||*||x||+||b|| (unit roundoff times the element growth the factorisation itself reports and SPxBasisBase tolerates; observed '
+                   'maximum on the unchanged tree: 0.06 of it) plus the documented absolute zero tolerance epsilon=1e-16 with which the solves drop '
+                   'entries; multi-rhs results must agree with the single solves within the bound implied by two rounding-level residuals. '
+                   '"Never reported singular" is decided for cond_inf<=1e8 and ||B^-1||_inf<=1e5 (away from the documented absolute pivot tolerance '
+                   'epsilon_pivot=1e-10); "singular is reported" is decided where floating-point elimination provably leaves no residue above that '
+                   'tolerance: structurally singular matrices, totally unimodular network matrices with dependent rows/columns (any dimension), '
+                   'duplicate/parallel/integer-dependent rows or columns of small-integer matrices up to dimension 8; larger ones are observed only. '
+                   'Update histories refactorise where SPxBasisBase::change() would (status != OK, stability < minStab). Caller-owned index arrays '
+                   'are framed by canaries, so an overrun is a reported violation in every flavour instead of heap corruption.',
         technique='runtime monitoring: exact-rational residual / forward-error / agreement / index-set oracles over executions of the '
                   'ASan+UBSan-instrumented factorisation; histories driven as SPxBasisBase::change() drives them',
         stages=_with_ext('C10', _c10_base),
@@ -108,8 +113,11 @@ PROPS = {
              '(singular cases: family, dimension, update type, kind); non-trivial = matrix loaded and at least the 15 solve variants judged',
         assumptions=COMMON_ASSUME + [
             'valid uses only: right-hand sides of the multi-rhs calls are set-up SSVectors, result vectors carry Tolerances, every change() is '
-            'preceded by a solve*4update with the entering column, the exact pivot element of every update is >= 1e-7 relative, '
-            'replacement columns keep the exact condition number of the (unscaled) matrix <= 1e6',
+            'preceded by a solve*4update with the entering column (or, directly after load()/change(), is given eta = solveRight(subst) as the '
+            'documented optional argument), the exact pivot element of every update is >= 1e-3 |alpha|_max and >= 1e-9, replacement columns '
+            'keep the exact condition number of the (unscaled) matrix <= 1e6, all matrix / right-hand-side entries are >= 6e-11 in modulus '
+            '(well above the absolute zero tolerance 1e-16), result index arrays have dim+1 slots as the solver\'s own vectors (every 4th '
+            'block of cases: exactly dim slots as SSVectorBase(dim) gives)',
         ],
     ),
     'C11': dict(
